@@ -98,6 +98,34 @@ def catalogue(pt):
     add("BytesEsc", lambda: B('a"b\\c\n\t\x00\x7f//;'))
     add("BytesRaw", lambda: B(bytes(range(256))))
     add("BytesEmpty", lambda: B(""))
+    # textual literals with stray white space / line breaks: must be refused or stay on one line
+    ADDR = "AAAAAAAAAAAAAAAAAAAAAAAAAAAAAAAAAAAAAAAAAAAAAAAAAAAAY5HFKQ"
+    WS = [("nl", "%s\n"), ("cr", "%s\r"), ("crnl", "%s\r\n"), ("lead-nl", "\n%s"), ("sp", "%s "), ("tab", "%s\t"), ("nlnl", "%s\n\n"),
+          ("vt", "%s\x0b"), ("ls", "%s\u2028"), ("mid-nl", None)]
+    def ws_variants(text):
+        for nm, fmt in WS:
+            yield nm, (fmt % text if fmt else text[: len(text) // 2] + "\n" + text[len(text) // 2:])
+    for nm, t in ws_variants("aGVsbG8h"):
+        add("Bytes64+%s" % nm, lambda t=t: B("base64", t), "literal-ws")
+    for nm, t in ws_variants("MFRGGZDFMY"):
+        add("Bytes32+%s" % nm, lambda t=t: B("base32", t), "literal-ws")
+    for nm, t in ws_variants("deadbeef"):
+        add("Bytes16+%s" % nm, lambda t=t: B("base16", t), "literal-ws")
+        add("Bytes16x+%s" % nm, lambda t=t: B("base16", "0x" + t), "literal-ws")
+    for nm, t in ws_variants(ADDR):
+        add("Addr+%s" % nm, lambda t=t: pt.Addr(t), "literal-ws")
+    for nm, t in ws_variants("add(uint64,uint64)uint64"):
+        add("MethodSignature+%s" % nm, lambda t=t: pt.MethodSignature(t), "literal-ws")
+    for nm, t in ws_variants("pay"):
+        add("EnumInt+%s" % nm, lambda t=t: pt.EnumInt(t), "literal-ws")
+    for nm, t in ws_variants("hello"):
+        add("BytesUtf8+%s" % nm, lambda t=t: B(t), "literal-ws")
+        add("Comment+%s" % nm, lambda t=t: pt.Comment(t, pt.Pop(I(1))), "literal-ws")
+        add("AssertComment+%s" % nm, lambda t=t: pt.Assert(I(1), comment=t), "literal-ws")
+        def subn(t=t):
+            f = pt.Subroutine(pt.TealType.uint64, name=t)(lambda a: a + I(1))
+            return f(I(1))
+        add("SubName+%s" % nm, subn, "literal-ws")
     add("IntMax", lambda: I(2 ** 64 - 1))
     add("IntEnum", lambda: pt.OnComplete.UpdateApplication)
     add("TxnTypeEnum", lambda: pt.TxnType.ApplicationCall)
